@@ -303,6 +303,14 @@ type Map struct {
 	idx         map[string]int // canonical concrete key -> slot
 	nsym        int            // number of live keys without canonical form
 	gen         uint64
+	shadow      Value // one shadow cell for the race monitor: a map is one object for the Go race detector too
+}
+
+// raceAccess records a read or write of the map as a whole.
+func (m *Map) raceAccess(fr *frame, write bool, what string) {
+	if r := fr.g.p.race; r != nil {
+		r.access(fr.g, &m.shadow, write, what+" in "+fr.fn.String())
+	}
 }
 
 func newMap(k, e types.Type) *Map {
@@ -389,6 +397,7 @@ func (m *Map) find(fr *frame, key Value) int {
 }
 
 func (m *Map) get(fr *frame, key Value) (Value, bool) {
+	m.raceAccess(fr, false, "map read")
 	i := m.find(fr, key)
 	if i < 0 {
 		return Value{}, false
@@ -397,6 +406,7 @@ func (m *Map) get(fr *frame, key Value) (Value, bool) {
 }
 
 func (m *Map) set(fr *frame, key, val Value) {
+	m.raceAccess(fr, true, "map write")
 	fr.g.w.noteMapWrite(fr.g, m)
 	i := m.find(fr, key)
 	if i >= 0 {
@@ -417,6 +427,7 @@ func (m *Map) set(fr *frame, key, val Value) {
 }
 
 func (m *Map) del(fr *frame, key Value) {
+	m.raceAccess(fr, true, "map delete")
 	fr.g.w.noteMapWrite(fr.g, m)
 	i := m.find(fr, key)
 	if i < 0 {
